@@ -422,3 +422,45 @@ Lemma b64_engine_shape e l :
     (k <= 2)%nat /\ (snd (engine_cfg e) = false -> k = 0%nat) /\
     (snd (engine_cfg e) = true -> (length (b64_encode_engine e l) mod 4 = 0)%nat).
 Proof. intros H. rewrite encode_engine_full. now apply enc_full_shape. Qed.
+
+(* ---- a text whose length is 1 mod 4 is never accepted *)
+Lemma suffix_one al mode tr off x : exists e, decode_suffix al mode tr off [x] = DErr e.
+Proof.
+  unfold decode_suffix. cbn [suffix_scan]. unfold PAD_BYTE.
+  destruct (x =? 61); [change (0 <? 2) with true; cbv iota; eauto|].
+  change (0 <? 0) with false. cbv iota.
+  destruct (unsym al x); [|eauto]. cbn. eauto.
+Qed.
+
+Lemma dq_bad_length al mode tr :
+  forall l off, (length l mod 4 = 1)%nat -> exists e, decode_quads al mode tr off l = DErr e.
+Proof.
+  induction l as [l Hl | a b c d e r IH] using list_ind4; intros off Hm.
+  - rewrite dq_short by assumption.
+    destruct l as [|x [|y [|z [|w [|v t]]]]]; cbn in Hm, Hl; try discriminate; try lia.
+    apply suffix_one.
+  - rewrite dq_step. destruct (decode_chunk_4 al off a b c d); [|eauto].
+    destruct (IH (off + 4)) as [err ->]; [|eauto].
+    cbn [length] in Hm |- *. remember (length r) as n. clear - Hm.
+    replace (S (S (S (S (S n))))) with (S n + 1 * 4)%nat in Hm by lia.
+    now rewrite Nat.mod_add in Hm by discriminate.
+Qed.
+
+Lemma b64_bad_length al mode tr l :
+  (length l mod 4 = 1)%nat -> exists e, b64_decode_bytes al mode tr l = DErr e.
+Proof.
+  intros H. unfold b64_decode_bytes.
+  match goal with |- context [if ?c then _ else _] => destruct c end; [eauto|].
+  now apply dq_bad_length.
+Qed.
+
+(* ---- whatever the decoder accepts is turned into a string only if it is well-formed UTF-8 *)
+Lemma b64_decode_ok_utf8 u s t :
+  b64_decode_filter u s = ROk t ->
+  exists a mode tr bs, lookup_bool b64_decode_table u = Some (a, mode, tr) /\
+    b64_decode_bytes (alphabet_of a) mode tr (utf8_encode s) = DOk bs /\ utf8_decode bs = Some t.
+Proof.
+  unfold b64_decode_filter. destruct (lookup_bool b64_decode_table u) as [[[a mode] tr]|]; [|discriminate].
+  destruct (b64_decode_bytes (alphabet_of a) mode tr (utf8_encode s)) as [bs|] eqn:E; [|discriminate].
+  destruct (utf8_decode bs) as [t'|] eqn:E2; [|discriminate]. intros [= <-]. eauto 8.
+Qed.
